@@ -1,3 +1,538 @@
 import Pun.Lemmas.PBoxNum
+import Pun.Lemmas.PBoxList
+import Mathlib.Tactic.NormNum
+import Mathlib.Tactic.FieldSimp
+import Mathlib.Algebra.Order.Ring.Basic
+import Mathlib.Algebra.Ring.Parity
+/-!
+# C06 — p-box with a real number, negation and monotone maps act step by step, exactly
+
+All statements are about the functions the driver executes (`numRightK`, `numLeftK`, `neg`,
+`recip`, `expP`, `logP`, `sqrtP`, `powNat`, `powW` and, through them, `numRight`, `numLeft`,
+`numberOp`, `unaryTemplate`, `mk`) for a well-formed p-box with ANY number `n` of steps
+(`WF n P`: `n` entries per bound, both bounds sorted, `left[i] ≤ right[i]`).
+
+* focal level (`IsImage`): the image of `[a,b]` under `x+c`, `x-c`, `c-x`, `x*c`, `x/c`, `-x`, `1/x`
+  is exactly the interval between the images of the endpoints, exchanged for a decreasing map;
+* `numAdd_steps`, `numSub_steps`, `numMul_steps_pos`, `numMul_steps_neg`, `numDiv_steps_pos`,
+  `numDiv_steps_neg`: the result of `P op c` is `ok` and its bound lists are the images of the
+  operand's bound lists — same order for an increasing map; for a decreasing map the bounds are
+  exchanged and the order of the steps reversed (step `i` of the result is the image of step
+  `n-1-i`); `radd_eq`, `rmul_eq`, `rsub_steps`, `rdiv_steps_nonneg`, `rdiv_steps_nonpos` for the
+  constant on the left; `num_step_image_*` combine both levels ("step = exact image of a step");
+* `neg_steps`, `neg_neg_box : -(-P) = P`, `rsub_eq : c - P = -(P - c)`,
+  `rdiv_eq : c / P = c * (1/P)`, `mul_zero_box`, `rmul_zero_box : P*0 = 0*P =` all steps `[0,0]`,
+  `div_zero_raises` (every constant kind), `numRightK_eq`, `numLeftK_eq` (kinds do not matter else);
+* `unary_mono_steps` (+ `exp_steps`, `log_steps`, `log_nonpos_raises`, `sqrt_steps`,
+  `sqrt_neg_raises`), `recip_steps`, `pow_pos_steps`, `pow_neg_even_steps`, `pow_neg_odd_steps`,
+  `powW_steps`.
+`exp`, `log`, `sqrt` and real powers are parameters `g` with exactly the order fact used
+(monotone on the values of the p-box).
+-/
+set_option linter.unusedSimpArgs false
+set_option linter.unusedVariables false
 namespace Pun.PBox.Num
+open Pun Pun.PBox List
+
+/-! ## focal intervals: the image of `[a,b]` is exactly `[lo,hi]` -/
+
+def IsImage (g : Rat → Rat) (a b lo hi : Rat) : Prop :=
+  ∀ y, (∃ x, a ≤ x ∧ x ≤ b ∧ g x = y) ↔ (lo ≤ y ∧ y ≤ hi)
+
+theorem image_add (a b c : Rat) : IsImage (· + c) a b (a + c) (b + c) := by
+  intro y; constructor
+  · rintro ⟨x, h1, h2, rfl⟩; constructor <;> simp only <;> linarith
+  · rintro ⟨h1, h2⟩; exact ⟨y - c, by linarith, by linarith, by simp⟩
+
+theorem image_sub (a b c : Rat) : IsImage (· - c) a b (a - c) (b - c) := by
+  intro y; constructor
+  · rintro ⟨x, h1, h2, rfl⟩; constructor <;> simp only <;> linarith
+  · rintro ⟨h1, h2⟩; exact ⟨y + c, by linarith, by linarith, by simp⟩
+
+theorem image_rsub (a b c : Rat) : IsImage (c - ·) a b (c - b) (c - a) := by
+  intro y; constructor
+  · rintro ⟨x, h1, h2, rfl⟩; constructor <;> simp only <;> linarith
+  · rintro ⟨h1, h2⟩; exact ⟨c - y, by linarith, by linarith, by simp⟩
+
+theorem image_neg (a b : Rat) : IsImage (- ·) a b (-b) (-a) := by
+  intro y; constructor
+  · rintro ⟨x, h1, h2, rfl⟩; constructor <;> simp only <;> linarith
+  · rintro ⟨h1, h2⟩; exact ⟨-y, by linarith, by linarith, by simp⟩
+
+theorem image_mul_nonneg (a b c : Rat) (hab : a ≤ b) (hc : 0 ≤ c) :
+    IsImage (· * c) a b (a * c) (b * c) := by
+  intro y; constructor
+  · rintro ⟨x, h1, h2, rfl⟩
+    exact ⟨mul_le_mul_of_nonneg_right h1 hc, mul_le_mul_of_nonneg_right h2 hc⟩
+  · rintro ⟨h1, h2⟩
+    rcases eq_or_lt_of_le hc with h0 | hpos
+    · subst h0; simp only [mul_zero] at h1 h2 ⊢
+      exact ⟨a, le_refl a, hab, le_antisymm h1 h2⟩
+    · refine ⟨y / c, ?_, ?_, by field_simp⟩
+      · rw [le_div_iff₀ hpos]; exact h1
+      · rw [div_le_iff₀ hpos]; exact h2
+
+theorem image_mul_nonpos (a b c : Rat) (hab : a ≤ b) (hc : c ≤ 0) :
+    IsImage (· * c) a b (b * c) (a * c) := by
+  intro y; constructor
+  · rintro ⟨x, h1, h2, rfl⟩
+    exact ⟨mul_le_mul_of_nonpos_right h2 hc, mul_le_mul_of_nonpos_right h1 hc⟩
+  · rintro ⟨h1, h2⟩
+    rcases eq_or_lt_of_le hc with h0 | hneg
+    · subst h0; simp only [mul_zero] at h1 h2 ⊢
+      exact ⟨a, le_refl a, hab, le_antisymm h1 h2⟩
+    · have hc0 : c ≠ 0 := ne_of_lt hneg
+      refine ⟨y / c, ?_, ?_, by field_simp⟩
+      · rw [le_div_iff_of_neg hneg]; exact h2
+      · rw [div_le_iff_of_neg hneg]; exact h1
+
+theorem image_div_pos (a b c : Rat) (hc : 0 < c) : IsImage (· / c) a b (a / c) (b / c) := by
+  intro y; constructor
+  · rintro ⟨x, h1, h2, rfl⟩
+    exact ⟨div_le_div_of_nonneg_right h1 hc.le, div_le_div_of_nonneg_right h2 hc.le⟩
+  · rintro ⟨h1, h2⟩
+    refine ⟨y * c, ?_, ?_, by field_simp⟩
+    · rw [div_le_iff₀ hc] at h1; exact h1
+    · rw [le_div_iff₀ hc] at h2; exact h2
+
+theorem image_div_neg (a b c : Rat) (hc : c < 0) : IsImage (· / c) a b (b / c) (a / c) := by
+  intro y; constructor
+  · rintro ⟨x, h1, h2, rfl⟩
+    exact ⟨div_le_div_of_nonpos_of_le hc.le h2, div_le_div_of_nonpos_of_le hc.le h1⟩
+  · rintro ⟨h1, h2⟩
+    have hc0 : c ≠ 0 := ne_of_lt hc
+    refine ⟨y * c, ?_, ?_, by field_simp⟩
+    · rw [le_div_iff_of_neg hc] at h2; exact h2
+    · rw [div_le_iff_of_neg hc] at h1; exact h1
+
+theorem image_recip_pos (a b : Rat) (hab : a ≤ b) (ha : 0 < a) :
+    IsImage (1 / ·) a b (1 / b) (1 / a) := by
+  have hb : 0 < b := lt_of_lt_of_le ha hab
+  intro y; constructor
+  · rintro ⟨x, h1, h2, rfl⟩
+    exact ⟨one_div_le_one_div_of_le (lt_of_lt_of_le ha h1) h2, one_div_le_one_div_of_le ha h1⟩
+  · rintro ⟨h1, h2⟩
+    have hy : 0 < y := lt_of_lt_of_le (one_div_pos.mpr hb) h1
+    refine ⟨1 / y, ?_, ?_, by simp⟩
+    · rw [le_one_div ha hy]; exact h2
+    · rw [one_div_le hy hb]; exact h1
+
+theorem image_recip_neg (a b : Rat) (hab : a ≤ b) (hb : b < 0) :
+    IsImage (1 / ·) a b (1 / b) (1 / a) := by
+  have ha : a < 0 := lt_of_le_of_lt hab hb
+  intro y; constructor
+  · rintro ⟨x, h1, h2, rfl⟩
+    have hx : x < 0 := lt_of_le_of_lt h2 hb
+    exact ⟨(one_div_le_one_div_of_neg hb hx).mpr h2, (one_div_le_one_div_of_neg hx ha).mpr h1⟩
+  · rintro ⟨h1, h2⟩
+    have hy : y < 0 := lt_of_le_of_lt h2 (one_div_neg.mpr ha)
+    refine ⟨1 / y, ?_, ?_, by simp⟩
+    · have := (one_div_le_one_div_of_neg (one_div_neg.mpr ha) hy).mpr h2
+      simpa using this
+    · have := (one_div_le_one_div_of_neg hy (one_div_neg.mpr hb)).mpr h1
+      simpa using this
+
+/-! ## `lo`, `hi`, `straddlesZero` of a sorted p-box -/
+
+theorem lo_le (P : PB) (s : P.left.Pairwise (· ≤ ·)) : ∀ x ∈ P.left, lo P ≤ x := by
+  unfold lo
+  cases hl : P.left with
+  | nil => intro x hx; simp at hx
+  | cons a t =>
+    rw [hl] at s
+    intro x hx
+    simp only [List.headD_cons]
+    rcases List.mem_cons.mp hx with e | e
+    · rw [e]
+    · exact (List.pairwise_cons.mp s).1 x e
+
+theorem getLastD_ge (t : List Rat) (d : Rat) (hd : ∀ y ∈ t, d ≤ y) (s : t.Pairwise (· ≤ ·)) :
+    d ≤ t.getLastD d ∧ ∀ y ∈ t, y ≤ t.getLastD d := by
+  induction t generalizing d with
+  | nil => simp
+  | cons a u ih =>
+    rw [List.getLastD_cons]
+    have s' := List.pairwise_cons.mp s
+    obtain ⟨h1, h2⟩ := ih a (fun y hy => s'.1 y hy) s'.2
+    refine ⟨le_trans (hd a (by simp)) h1, ?_⟩
+    intro y hy
+    rcases List.mem_cons.mp hy with e | e
+    · rw [e]; exact h1
+    · exact h2 y e
+
+theorem le_hi (P : PB) (s : P.right.Pairwise (· ≤ ·)) : ∀ y ∈ P.right, y ≤ hi P := by
+  unfold hi
+  cases hr : P.right with
+  | nil => intro x hx; simp at hx
+  | cons a t =>
+    rw [hr] at s
+    have s' := List.pairwise_cons.mp s
+    obtain ⟨h1, h2⟩ := getLastD_ge t a (fun y hy => s'.1 y hy) s'.2
+    rw [List.getLastD_cons]
+    intro y hy
+    rcases List.mem_cons.mp hy with e | e
+    · rw [e]; exact h1
+    · exact h2 y e
+
+theorem not_straddles_of_nonneg (P : PB) (h : ∀ x ∈ P.left, 0 ≤ x) : straddlesZero P = false := by
+  unfold straddlesZero
+  have : ¬ minL 0 P.left < 0 := by
+    by_cases hne : P.left = []
+    · simp [hne, minL]
+    · exact not_lt.mpr (h _ (minL_spec 0 P.left hne).1)
+  simp [this]
+
+theorem not_straddles_of_nonpos (P : PB) (h : ∀ x ∈ P.right, x ≤ 0) : straddlesZero P = false := by
+  unfold straddlesZero
+  have : ¬ maxL 0 P.right > 0 := by
+    by_cases hne : P.right = []
+    · simp [hne, maxL]
+    · exact not_lt.mpr (h _ (maxL_spec 0 P.right hne).1)
+  simp [this]
+
+/-- the support of `P` excludes zero: what the order facts about `1/x` need -/
+theorem excl_zero_pred (n : Nat) (P : PB) (h : WF n P) (hz : 0 < lo P ∨ hi P < 0) :
+    ∃ p : Rat → Prop, (∀ x ∈ P.left, p x) ∧ (∀ x ∈ P.right, p x) ∧ (∀ x, p x → x ≠ 0) ∧
+      (∀ x y : Rat, p x → p y → x ≤ y → 1 / y ≤ 1 / x) := by
+  rcases hz with hpos | hneg
+  · have hl : ∀ x ∈ P.left, 0 < x := fun x hx => lt_of_lt_of_le hpos (lo_le P h.sortedL x hx)
+    exact ⟨fun x => 0 < x, hl, forall₂_lb h.le 0 hl, fun x hx => ne_of_gt hx, recip_anti_pos⟩
+  · have hr : ∀ y ∈ P.right, y < 0 := fun y hy => lt_of_le_of_lt (le_hi P h.sortedR y hy) hneg
+    exact ⟨fun x => x < 0, forall₂_ub h.le 0 hr, hr, fun x hx => ne_of_lt hx, recip_anti_neg⟩
+
+/-! ## `P op c` : the steps are the images of the operand's steps -/
+
+private theorem tt : ∀ x : Rat, x ∈ ([] : List Rat) → True := fun _ _ => trivial
+
+/-- ★ `P + c` -/
+theorem numAdd_steps (n : Nat) (P : PB) (c : Rat) (h : WF n P) :
+    numRight n .add P c = .ok ⟨P.left.map (· + c), P.right.map (· + c)⟩ :=
+  numberOp_mono n (· + ·) P c h (fun _ => True) (fun _ _ => trivial) (fun _ _ => trivial)
+    (fun x y _ _ hxy => by simp only; linarith)
+
+/-- ★ `P - c` (coded as `P.add(-c)`) -/
+theorem numSub_steps (n : Nat) (P : PB) (c : Rat) (h : WF n P) :
+    numRight n .sub P c = .ok ⟨P.left.map (· - c), P.right.map (· - c)⟩ := by
+  have e : (fun x : Rat => x - c) = (fun x => x + -c) := funext (fun x => sub_eq_add_neg x c)
+  rw [e]
+  exact numAdd_steps n P (-c) h
+
+/-- ★ `P * c`, `c ≥ 0` (for `c = 0` every step is `[0,0]`) -/
+theorem numMul_steps_pos (n : Nat) (P : PB) (c : Rat) (h : WF n P) (hc : 0 ≤ c) :
+    numRight n .mul P c = .ok ⟨P.left.map (· * c), P.right.map (· * c)⟩ :=
+  numberOp_mono n (· * ·) P c h (fun _ => True) (fun _ _ => trivial) (fun _ _ => trivial)
+    (fun x y _ _ hxy => mul_le_mul_of_nonneg_right hxy hc)
+
+/-- ★ `P * c`, `c ≤ 0`: bounds exchanged, order of the steps reversed -/
+theorem numMul_steps_neg (n : Nat) (P : PB) (c : Rat) (h : WF n P) (hc : c ≤ 0) :
+    numRight n .mul P c = .ok ⟨P.right.reverse.map (· * c), P.left.reverse.map (· * c)⟩ :=
+  numberOp_anti n (· * ·) P c h (fun _ => True) (fun _ _ => trivial) (fun _ _ => trivial)
+    (fun x y _ _ hxy => mul_le_mul_of_nonpos_right hxy hc)
+
+theorem numRight_div_ne (n : Nat) (P : PB) (c : Rat) (hc : c ≠ 0) :
+    numRight n .div P c = numberOp n (· * ·) P (1 / c) := by
+  simp [numRight, hc]
+
+/-- ★ `P / c`, `c > 0` (coded as `P.mul(1/c)`) -/
+theorem numDiv_steps_pos (n : Nat) (P : PB) (c : Rat) (h : WF n P) (hc : 0 < c) :
+    numRight n .div P c = .ok ⟨P.left.map (· / c), P.right.map (· / c)⟩ := by
+  have e : (fun x : Rat => x / c) = (fun x => x * (1 / c)) := funext (fun x => (mul_one_div x c).symm)
+  rw [e, numRight_div_ne n P c hc.ne']
+  exact numberOp_mono n (· * ·) P (1 / c) h (fun _ => True) (fun _ _ => trivial) (fun _ _ => trivial)
+    (fun x y _ _ hxy => mul_le_mul_of_nonneg_right hxy (one_div_pos.mpr hc).le)
+
+/-- ★ `P / c`, `c < 0` -/
+theorem numDiv_steps_neg (n : Nat) (P : PB) (c : Rat) (h : WF n P) (hc : c < 0) :
+    numRight n .div P c = .ok ⟨P.right.reverse.map (· / c), P.left.reverse.map (· / c)⟩ := by
+  have e : (fun x : Rat => x / c) = (fun x => x * (1 / c)) := funext (fun x => (mul_one_div x c).symm)
+  rw [e, numRight_div_ne n P c hc.ne]
+  exact numberOp_anti n (· * ·) P (1 / c) h (fun _ => True) (fun _ _ => trivial) (fun _ _ => trivial)
+    (fun x y _ _ hxy => mul_le_mul_of_nonpos_right hxy (one_div_neg.mpr hc).le)
+
+/-- the kind of the constant (int, float, numpy scalar) matters only for `P / 0` -/
+theorem numRightK_eq (n : Nat) (k : CKind) (o : Op) (P : PB) (c : Rat) (h : o ≠ .div ∨ c ≠ 0) :
+    numRightK n k o P c = numRight n o P c := by
+  cases o with
+  | div =>
+    rcases h with h | h
+    · exact absurd rfl h
+    · simp [numRightK, h]
+  | add => rfl
+  | sub => rfl
+  | mul => rfl
+
+theorem numLeftK_eq (n : Nat) (k : CKind) (o : Op) (c : Rat) (P : PB) (h : o ≠ .div) :
+    numLeftK n k o c P = numLeft n o c P := by
+  cases o with
+  | div => exact absurd rfl h
+  | add => rfl
+  | sub => rfl
+  | mul => rfl
+
+theorem numLeftK_div_ok (n : Nat) (k : CKind) (c : Rat) (P R : PB)
+    (h : numLeft n .div c P = .ok R) : numLeftK n k .div c P = .ok R := by
+  simp [numLeftK, h]
+
+/-- ★ `P / 0` is an error for every kind of zero -/
+theorem div_zero_raises (n : Nat) (k : CKind) (P : PB) : ∃ e, numRightK n k .div P 0 = .error e := by
+  cases k <;> exact ⟨_, rfl⟩
+
+theorem div_zero_python (n : Nat) (P : PB) :
+    numRightK n .pyInt .div P 0 = .error .ZeroDivision ∧ numRightK n .pyFloat .div P 0 = .error .ZeroDivision :=
+  ⟨rfl, rfl⟩
+
+/-- `c + P = P + c`, `c * P = P * c` (reflected operators call the same method) -/
+theorem radd_eq (n : Nat) (c : Rat) (P : PB) : numLeft n .add c P = numRight n .add P c := rfl
+theorem rmul_eq (n : Nat) (c : Rat) (P : PB) : numLeft n .mul c P = numRight n .mul P c := rfl
+
+/-! ## negation, `c - P` -/
+
+/-- ★ `-P`: step `i` of the result is the negated step `n-1-i`, bounds exchanged -/
+theorem neg_steps (n : Nat) (P : PB) (h : WF n P) :
+    neg n P = .ok ⟨P.right.reverse.map (- ·), P.left.reverse.map (- ·)⟩ := neg_ok n P h
+
+/-- ★ `-(-P) = P` -/
+theorem neg_neg_box (n : Nat) (P : PB) (h : WF n P) : (neg n P >>= neg n) = .ok P := by
+  rw [neg_ok n P h]
+  show neg n _ = _
+  rw [neg_ok n _ (neg_wf n P h)]
+  cases P with
+  | mk l r => simp [List.map_reverse, Function.comp]
+
+/-- `c - P` (coded as `(-P).add(c)`): step `i` is `c -` step `n-1-i` -/
+theorem rsub_steps (n : Nat) (c : Rat) (P : PB) (h : WF n P) :
+    numLeft n .sub c P = .ok ⟨P.right.reverse.map (c - ·), P.left.reverse.map (c - ·)⟩ := by
+  have h1 := neg_ok n P h
+  have h2 := numAdd_steps n _ c (neg_wf n P h)
+  have e : (fun x : Rat => c - x) = (fun x => x + c) ∘ (fun x => -x) := by
+    funext x; simp only [Function.comp]; ring
+  show (neg n P >>= fun np => numberOp n (· + ·) np c) = _
+  rw [h1]
+  show numRight n .add _ c = _
+  rw [h2, e, ← List.map_map, ← List.map_map]
+
+/-- ★ `c - P = -(P - c)` -/
+theorem rsub_eq (n : Nat) (c : Rat) (P : PB) (h : WF n P) :
+    numLeft n .sub c P = (numRight n .sub P c >>= neg n) := by
+  rw [rsub_steps n c P h, numSub_steps n P c h]
+  show _ = neg n _
+  have w : WF n ⟨P.left.map (· - c), P.right.map (· - c)⟩ :=
+    wf_map_mono n P h (· - c) (fun _ => True) (fun _ _ => trivial) (fun _ _ => trivial)
+      (fun x y _ _ hxy => by simp only; linarith)
+  rw [neg_ok n _ w]
+  simp [List.map_reverse, Function.comp]
+
+/-! ## reciprocal, `c / P` -/
+
+/-- ★ `1/P` for a p-box whose support excludes zero: step `i` is the reciprocal of step `n-1-i` -/
+theorem recip_steps (n : Nat) (P : PB) (h : WF n P) (hz : 0 < lo P ∨ hi P < 0) :
+    recip n P = .ok ⟨P.right.reverse.map (1 / ·), P.left.reverse.map (1 / ·)⟩ := by
+  obtain ⟨p, hpl, hpr, hne, hg⟩ := excl_zero_pred n P h hz
+  exact recip_ok n P h p hpl hpr hne hg
+
+theorem recip_wf (n : Nat) (P : PB) (h : WF n P) (hz : 0 < lo P ∨ hi P < 0) :
+    WF n ⟨P.right.reverse.map (1 / ·), P.left.reverse.map (1 / ·)⟩ := by
+  obtain ⟨p, hpl, hpr, hne, hg⟩ := excl_zero_pred n P h hz
+  exact wf_map_anti n P h (1 / ·) p hpl hpr hg
+
+theorem numLeft_div_eq (n : Nat) (c : Rat) (P : PB) (h : WF n P) (hz : 0 < lo P ∨ hi P < 0) :
+    numLeft n .div c P =
+      numRight n .mul ⟨P.right.reverse.map (1 / ·), P.left.reverse.map (1 / ·)⟩ c := by
+  show (recip n P >>= fun r => numberOp n (· * ·) r c) = _
+  rw [recip_steps n P h hz]
+  rfl
+
+/-- `c / P`, `c ≥ 0` (coded as `c * P.reciprocal()`): step `i` is `c /` step `n-1-i` -/
+theorem rdiv_steps_nonneg (n : Nat) (c : Rat) (P : PB) (h : WF n P) (hz : 0 < lo P ∨ hi P < 0)
+    (hc : 0 ≤ c) :
+    numLeft n .div c P = .ok ⟨P.right.reverse.map (c / ·), P.left.reverse.map (c / ·)⟩ := by
+  rw [numLeft_div_eq n c P h hz, numMul_steps_pos n _ c (recip_wf n P h hz) hc]
+  have e : (fun x : Rat => c / x) = (fun x => x * c) ∘ (fun x => 1 / x) := by
+    funext x; simp only [Function.comp]; rw [one_div_mul_eq_div]
+  rw [e, ← List.map_map, ← List.map_map]
+
+/-- `c / P`, `c ≤ 0`: the two reversals cancel, step `i` is `c /` step `i` with bounds exchanged twice -/
+theorem rdiv_steps_nonpos (n : Nat) (c : Rat) (P : PB) (h : WF n P) (hz : 0 < lo P ∨ hi P < 0)
+    (hc : c ≤ 0) :
+    numLeft n .div c P = .ok ⟨P.left.map (c / ·), P.right.map (c / ·)⟩ := by
+  rw [numLeft_div_eq n c P h hz, numMul_steps_neg n _ c (recip_wf n P h hz) hc]
+  have e : (fun x : Rat => c / x) = (fun x => x * c) ∘ (fun x => 1 / x) := by
+    funext x; simp only [Function.comp]; rw [one_div_mul_eq_div]
+  simp only [e, ← List.map_map, List.map_reverse, List.reverse_reverse]
+
+/-- ★ `c / P = c * (1/P)` where `1/P` is itself the reflected division `1 / P` -/
+theorem rdiv_eq (n : Nat) (c : Rat) (P : PB) (h : WF n P) (hz : 0 < lo P ∨ hi P < 0) :
+    numLeft n .div c P = (numLeft n .div 1 P >>= fun Q => numLeft n .mul c Q) := by
+  have h1 := rdiv_steps_nonneg n 1 P h hz (by norm_num)
+  have e : (fun x : Rat => 1 / x) = (1 / ·) := rfl
+  rw [h1]
+  show _ = numRight n .mul _ c
+  exact numLeft_div_eq n c P h hz
+
+/-! ## zero -/
+
+/-- ★ `P * 0`: every step is `[0,0]` -/
+theorem mul_zero_box (n : Nat) (P : PB) (h : WF n P) :
+    numRight n .mul P 0 = .ok ⟨List.replicate n 0, List.replicate n 0⟩ := by
+  rw [numMul_steps_pos n P 0 h (le_refl 0)]
+  simp [mul_zero, h.lenL, h.lenR]
+
+theorem rmul_zero_box (n : Nat) (P : PB) (h : WF n P) :
+    numLeft n .mul 0 P = .ok ⟨List.replicate n 0, List.replicate n 0⟩ := mul_zero_box n P h
+
+/-- `0 / P = 0` when the support excludes zero -/
+theorem rdiv_zero_box (n : Nat) (P : PB) (h : WF n P) (hz : 0 < lo P ∨ hi P < 0) :
+    numLeft n .div 0 P = .ok ⟨List.replicate n 0, List.replicate n 0⟩ := by
+  rw [rdiv_steps_nonneg n 0 P h hz (le_refl 0)]
+  simp [h.lenL, h.lenR]
+
+/-! ## step = exact image of a step -/
+
+theorem forall₂_get {l r : List Rat} (h : Forall₂ (· ≤ ·) l r) (i : Nat) (hi : i < l.length)
+    (hi' : i < r.length) : l[i] ≤ r[i] := by
+  induction h generalizing i with
+  | nil => simp at hi
+  | @cons a b s t hab _ ih =>
+    cases i with
+    | zero => simpa using hab
+    | succ j => simpa using ih j (by simpa using hi) (by simpa using hi')
+
+/-- `P * c`, `c ≥ 0`: step `i` of the result is exactly the image of step `i` of `P` -/
+theorem num_step_image_mul_pos (n : Nat) (P : PB) (c : Rat) (h : WF n P) (hc : 0 ≤ c) (i : Nat) (hi : i < n) :
+    ∃ R, numRightK n .pyFloat .mul P c = .ok R ∧ ∃ (h1 : i < R.left.length) (h2 : i < R.right.length)
+      (h3 : i < P.left.length) (h4 : i < P.right.length),
+      IsImage (· * c) P.left[i] P.right[i] R.left[i] R.right[i] := by
+  refine ⟨_, numMul_steps_pos n P c h hc, by simp [h.lenL, hi], by simp [h.lenR, hi],
+    by simp [h.lenL, hi], by simp [h.lenR, hi], ?_⟩
+  simp only [List.getElem_map]
+  exact image_mul_nonneg _ _ c (forall₂_get h.le i _ _) hc
+
+/-- `P * c`, `c ≤ 0`: step `i` of the result is exactly the image of step `n-1-i` of `P` -/
+theorem num_step_image_mul_neg (n : Nat) (P : PB) (c : Rat) (h : WF n P) (hc : c ≤ 0) (i : Nat) (hi : i < n) :
+    ∃ R, numRightK n .pyFloat .mul P c = .ok R ∧ ∃ (h1 : i < R.left.length) (h2 : i < R.right.length)
+      (h3 : n - 1 - i < P.left.length) (h4 : n - 1 - i < P.right.length),
+      IsImage (· * c) P.left[n - 1 - i] P.right[n - 1 - i] R.left[i] R.right[i] := by
+  have hl := h.lenL
+  have hr := h.lenR
+  refine ⟨_, numMul_steps_neg n P c h hc, by simp [hr, hi], by simp [hl, hi],
+    by omega, by omega, ?_⟩
+  simp only [List.getElem_map, List.getElem_reverse, hl, hr]
+  exact image_mul_nonpos _ _ c (forall₂_get h.le (n - 1 - i) _ _) hc
+
+/-- `1/P`: step `i` of the result is exactly the image of step `n-1-i` of `P` -/
+theorem recip_step_image (n : Nat) (P : PB) (h : WF n P) (hz : 0 < lo P ∨ hi P < 0) (i : Nat) (hi : i < n) :
+    ∃ R, recip n P = .ok R ∧ ∃ (h1 : i < R.left.length) (h2 : i < R.right.length)
+      (h3 : n - 1 - i < P.left.length) (h4 : n - 1 - i < P.right.length),
+      IsImage (1 / ·) P.left[n - 1 - i] P.right[n - 1 - i] R.left[i] R.right[i] := by
+  have hl := h.lenL
+  have hr := h.lenR
+  refine ⟨_, recip_steps n P h hz, by simp [hr, hi], by simp [hl, hi], by omega, by omega, ?_⟩
+  simp only [List.getElem_map, List.getElem_reverse, hl, hr]
+  have hab := forall₂_get h.le (n - 1 - i) (by omega) (by omega)
+  rcases hz with hpos | hneg
+  · exact image_recip_pos _ _ hab (lt_of_lt_of_le hpos (lo_le P h.sortedL _ (List.getElem_mem _)))
+  · exact image_recip_neg _ _ hab (lt_of_le_of_lt (le_hi P h.sortedR _ (List.getElem_mem _)) hneg)
+
+/-! ## monotone unary maps (`exp`, `log`, `sqrt` are parameters `g`) -/
+
+/-- ★ `_unary_template(g)` for `g` increasing on a set holding every bound of `P` -/
+theorem unary_mono_steps (n : Nat) (P : PB) (h : WF n P) (g : Rat → Rat) (p : Rat → Prop)
+    (hpl : ∀ x ∈ P.left, p x) (hpr : ∀ x ∈ P.right, p x)
+    (hg : ∀ x y, p x → p y → x ≤ y → g x ≤ g y) :
+    unaryTemplate n (P.left.map g) (P.right.map g) = .ok ⟨P.left.map g, P.right.map g⟩ :=
+  unaryTemplate_mono n P h g p hpl hpr hg
+
+theorem exp_steps (n : Nat) (P : PB) (h : WF n P) (g : Rat → Rat) (hg : ∀ x y, x ≤ y → g x ≤ g y) :
+    expP n P (P.left.map g) (P.right.map g) = .ok ⟨P.left.map g, P.right.map g⟩ :=
+  unaryTemplate_mono n P h g (fun _ => True) (fun _ _ => trivial) (fun _ _ => trivial)
+    (fun x y _ _ hxy => hg x y hxy)
+
+theorem log_steps (n : Nat) (P : PB) (h : WF n P) (g : Rat → Rat)
+    (hg : ∀ x y, 0 < x → 0 < y → x ≤ y → g x ≤ g y) (hpos : 0 < lo P) :
+    logP n P (P.left.map g) (P.right.map g) = .ok ⟨P.left.map g, P.right.map g⟩ := by
+  have hl : ∀ x ∈ P.left, 0 < x := fun x hx => lt_of_lt_of_le hpos (lo_le P h.sortedL x hx)
+  unfold logP
+  rw [if_neg (not_le.mpr hpos)]
+  exact unaryTemplate_mono n P h g (fun x => 0 < x) hl (forall₂_lb h.le 0 hl) hg
+
+theorem log_nonpos_raises (n : Nat) (P : PB) (fl fr : List Rat) (hle : lo P ≤ 0) :
+    logP n P fl fr = .error .Value := by
+  unfold logP; rw [if_pos hle]
+
+theorem sqrt_steps (n : Nat) (P : PB) (h : WF n P) (g : Rat → Rat)
+    (hg : ∀ x y, 0 ≤ x → 0 ≤ y → x ≤ y → g x ≤ g y) (h0 : 0 ≤ lo P) :
+    sqrtP n P (P.left.map g) (P.right.map g) = .ok ⟨P.left.map g, P.right.map g⟩ := by
+  have hl : ∀ x ∈ P.left, 0 ≤ x := fun x hx => le_trans h0 (lo_le P h.sortedL x hx)
+  have hr := forall₂_lb' h.le 0 hl
+  unfold sqrtP
+  have e1 : P.left.any (fun x => decide (x < 0)) = false := by
+    rw [List.any_eq_false]; intro x hx; simpa using hl x hx
+  have e2 : P.right.any (fun x => decide (x < 0)) = false := by
+    rw [List.any_eq_false]; intro x hx; simpa using hr x hx
+  rw [e1, e2]
+  simp only [Bool.or_self, Bool.false_eq_true, if_false]
+  exact unaryTemplate_mono n P h g (fun x => 0 ≤ x) hl hr hg
+
+theorem sqrt_neg_raises (n : Nat) (P : PB) (fl fr : List Rat) (hneg : lo P < 0) :
+    sqrtP n P fl fr = .error .Other := by
+  unfold sqrtP
+  have : P.left.any (fun x => decide (x < 0)) = true := by
+    unfold lo at hneg
+    cases hl : P.left with
+    | nil => rw [hl] at hneg; simp at hneg
+    | cons a t => rw [hl] at hneg; simp only [List.headD_cons] at hneg; simp [hneg]
+  rw [this]; rfl
+
+/-! ## powers -/
+
+/-- ○ `P ** k` for `P ≥ 0` -/
+theorem pow_pos_steps (n : Nat) (P : PB) (h : WF n P) (k : Nat) (h0 : 0 ≤ lo P) :
+    powNat n P k = some (.ok ⟨P.left.map (· ^ k), P.right.map (· ^ k)⟩) := by
+  have hl : ∀ x ∈ P.left, 0 ≤ x := fun x hx => le_trans h0 (lo_le P h.sortedL x hx)
+  have hr := forall₂_lb' h.le 0 hl
+  unfold powNat
+  rw [not_straddles_of_nonneg P hl]
+  simp only [Bool.false_eq_true, if_false]
+  congr 1
+  exact numberOp_mono n (fun x _ => x ^ k) P 0 h (fun x => 0 ≤ x) hl hr
+    (fun x y hx _ hxy => pow_le_pow_left₀ hx hxy k)
+
+/-- ○ `P ** k` for `P ≤ 0`, `k` even: decreasing map, bounds exchanged and order reversed -/
+theorem pow_neg_even_steps (n : Nat) (P : PB) (h : WF n P) (k : Nat) (hk : Even k) (h0 : hi P ≤ 0) :
+    powNat n P k = some (.ok ⟨P.right.reverse.map (· ^ k), P.left.reverse.map (· ^ k)⟩) := by
+  have hr : ∀ x ∈ P.right, x ≤ 0 := fun x hx => le_trans (le_hi P h.sortedR x hx) h0
+  have hl := forall₂_ub' h.le 0 hr
+  unfold powNat
+  rw [not_straddles_of_nonpos P hr]
+  simp only [Bool.false_eq_true, if_false]
+  congr 1
+  refine numberOp_anti n (fun x _ => x ^ k) P 0 h (fun x => x ≤ 0) hl hr ?_
+  intro x y hx hy hxy
+  simp only
+  rw [← Even.neg_pow hk y, ← Even.neg_pow hk x]
+  exact pow_le_pow_left₀ (by linarith) (by linarith) k
+
+/-- ○ `P ** k` for `k` odd (any sign that does not straddle zero): increasing map -/
+theorem pow_neg_odd_steps (n : Nat) (P : PB) (h : WF n P) (k : Nat) (hk : Odd k) (h0 : hi P ≤ 0) :
+    powNat n P k = some (.ok ⟨P.left.map (· ^ k), P.right.map (· ^ k)⟩) := by
+  have hr : ∀ x ∈ P.right, x ≤ 0 := fun x hx => le_trans (le_hi P h.sortedR x hx) h0
+  unfold powNat
+  rw [not_straddles_of_nonpos P hr]
+  simp only [Bool.false_eq_true, if_false]
+  congr 1
+  exact numberOp_mono n (fun x _ => x ^ k) P 0 h (fun _ => True) (fun _ _ => trivial) (fun _ _ => trivial)
+    (fun x y _ _ hxy => hk.strictMono_pow.monotone hxy)
+
+/-- ○ `P ** c` for a real exponent: `g = (· ** c)` is a parameter, increasing on `[0,∞)` -/
+theorem powW_steps (n : Nat) (P : PB) (h : WF n P) (g : Rat → Rat)
+    (hg : ∀ x y, 0 ≤ x → 0 ≤ y → x ≤ y → g x ≤ g y) (h0 : 0 ≤ lo P) :
+    powW n P (P.left.map g) (P.right.map g) = some (.ok ⟨P.left.map g, P.right.map g⟩) := by
+  have hl : ∀ x ∈ P.left, 0 ≤ x := fun x hx => le_trans h0 (lo_le P h.sortedL x hx)
+  have hr := forall₂_lb' h.le 0 hl
+  unfold powW
+  rw [not_straddles_of_nonneg P hl]
+  simp only [Bool.false_eq_true, if_false]
+  congr 1
+  exact numberOpW_mono n P h g (fun x => 0 ≤ x) hl hr hg
+
 end Pun.PBox.Num
